@@ -14,6 +14,9 @@ def set_meta(instance: Any, **meta: Any) -> Dict[str, Any]:
     Updates object pjrpc metadata.
     """
 
+    # bound methods (e.g. class methods of a view) do not accept attributes: annotate the underlying function
+    instance = getattr(instance, '__func__', instance)
+
     if not hasattr(instance, '__pjrpc_meta__'):
         instance.__pjrpc_meta__ = {}
 
